@@ -185,9 +185,10 @@ func init() {
 						return false, false
 					}
 					// exit: the first block whose branch is not decided by the atoms - or the boolean it returns
-					exit := func(vl valn) string {
-						var prev *ssa.BasicBlock
-						b := start
+					var exitFrom func(vl valn, b, prev *ssa.BasicBlock, free int) string
+					exit := func(vl valn) string { return exitFrom(vl, start, nil, 0) }
+					exitFrom = func(vl valn, b, prev *ssa.BasicBlock, free int) string {
+						first := b
 						// where the decision ends: the block, and the booleans it has merged from the atoms (a decision kept
 						// as a value: `invalid := r == '%' && (…)`)
 						label := func(b, prev *ssa.BasicBlock) string {
@@ -208,6 +209,11 @@ func init() {
 							case *ssa.If:
 								r, ok := eval(t.Cond, prev, b, vl, 0)
 								if !ok {
+									// a test of something else in the middle of the decision (`s[0] == '%'` between the length
+									// test and the digit tests): the decision is what follows on either side of it
+									if _, isCmp := t.Cond.(*ssa.BinOp); isCmp && free < 2 && (b == start || blockOnlyAtoms(b, g.atoms)) {
+										return "[" + exitFrom(vl, b.Succs[0], b, free+1) + " / " + exitFrom(vl, b.Succs[1], b, free+1) + "]"
+									}
 									return label(b, prev)
 								}
 								prev = b
@@ -239,6 +245,7 @@ func init() {
 							default:
 								return label(b, prev)
 							}
+							_ = first
 							if b != start {
 								// a block that does other things than the decision ends it
 								if !blockOnlyAtoms(b, g.atoms) {
